@@ -8,6 +8,14 @@ verus! {
 /// a condition that does not depend on the argument count: either way is possible
 #[verifier::external_body]
 pub fn nondet() -> bool { unimplemented!() }
+/// a (re)bound argument list: any length
+#[verifier::external_body]
+pub fn havoc_args() -> Vec<Node> { unimplemented!() }
 //@argslice base/src/functions
+// the same for the formula parser (the two xlsx-only pseudo functions index the parsed argument list), the static analysis of
+// spilling functions and the unit inference, which all receive a function call's argument list
+//@argslice base/src/expressions/parser/mod.rs local=parse_primary
+//@argslice base/src/expressions/parser/static_analysis.rs all
+//@argslice base/src/units.rs all
 } // verus!
 fn main() {}
